@@ -632,9 +632,11 @@ static void c08_gen(Rng &rng, Plan &plan, bool thorough)
 static void gen_flush_storm(Rng &rng, Plan &plan, size_t len)
 {
 	size_t left = len;
-	int n = 5 + (int)rng.below(40);
+	int n = 5 + (int)rng.below(60);
+	static const size_t scales[] = { 40, 40, 150, 400 };
+	size_t scale = scales[rng.below(4)];
 	for (int i = 0; i < n && left > 0; ++i) {
-		size_t k = 1 + (size_t)rng.below(rng.chance(300) ? 400 : 40);
+		size_t k = 1 + (size_t)rng.below(rng.chance(200) ? 400 : scale);
 		if (k > left) k = left;
 		Op op("flush");
 		op.set("kind", LZMA_SYNC_FLUSH).set("n", (int64_t)k);
@@ -665,7 +667,7 @@ static void c12_gen(Rng &rng, Plan &plan, bool thorough)
 	if (rng.chance(350)) plan.setp("mf_norm_after", rng.range(1, 30000));
 	bool sync_ok = kind != EK_STREAM_MT;
 	bool full_ok = kind != EK_RAW;
-	if (sync_ok && !bcj_chain && plan.p("ch_lzma1", 0) == 0 && rng.chance(350)) {
+	if (sync_ok && !bcj_chain && plan.p("ch_lzma1", 0) == 0 && rng.chance(450)) {
 		// binary-tree and hash-chain match finders treat the tail differently while flushing
 		static const int mfs[] = { LZMA_MF_BT2, LZMA_MF_BT3, LZMA_MF_BT4, LZMA_MF_HC3, LZMA_MF_HC4 };
 		plan.setp("ch_mf", mfs[rng.below(5)]);
@@ -673,9 +675,9 @@ static void c12_gen(Rng &rng, Plan &plan, bool thorough)
 		plan.setp("ch_nice", rng.chance(500) ? rng.range(2, 40) : rng.range(2, 273));
 		plan.setp("ch_depth", rng.chance(500) ? 0 : rng.range(1, 40));
 		if (kind == EK_EASY) plan.setp("preset", 4 + (int64_t)rng.below(3));
-		static const int rep[] = { IN_RUNS, IN_TEXT, IN_ZEROS, IN_REPEAT_FAR, IN_RUNS, IN_X86ISH };
-		plan.setp("in_class", rep[rng.below(6)]);
-		plan.setp("in_len", 20 + (int64_t)rng.size_skewed(6000));
+		static const int rep[] = { IN_RUNS, IN_TEXT, IN_ZEROS, IN_REPEAT_FAR, IN_RUNS, IN_X86ISH, IN_LOWENT, IN_LOWENT };
+		plan.setp("in_class", rep[rng.below(8)]);
+		plan.setp("in_len", 20 + (int64_t)rng.size_skewed(16000));
 		gen_flush_storm(rng, plan, (size_t)plan.p("in_len"));
 		return;
 	}
@@ -741,6 +743,19 @@ static void c01_enc_gen(Rng &rng, Plan &plan, bool thorough)
 	// the H1 knob: normalisation of the match finder within the input
 	if (rng.chance(600)) plan.setp("mf_norm_after", rng.range(1, (int64_t)plan.p("in_len") + 2));
 	plan.setp("check_determinism", rng.chance(250) ? 1 : 0);
+	if ((kind == EK_STREAM_ST || kind == EK_RAW) && plan.p("ch_lzma1", 0) == 0 && plan.p("ch_shape") <= 1 && rng.chance(200)) {
+		// the multi-call encoder driven with sync flushes a few bytes apart (round trip must still hold)
+		static const int mfs[] = { LZMA_MF_BT2, LZMA_MF_BT3, LZMA_MF_BT4, LZMA_MF_BT4, LZMA_MF_HC4 };
+		plan.setp("ch_mf", mfs[rng.below(5)]);
+		plan.setp("ch_mode", rng.chance(300) ? LZMA_MODE_FAST : LZMA_MODE_NORMAL);
+		plan.setp("ch_nice", rng.range(4, 80));
+		plan.setp("ch_depth", 0);
+		static const int rep[] = { IN_RUNS, IN_TEXT, IN_LOWENT, IN_LOWENT, IN_REPEAT_FAR };
+		plan.setp("in_class", rep[rng.below(5)]);
+		plan.setp("in_len", 200 + (int64_t)rng.size_skewed(16000));
+		gen_flush_storm(rng, plan, (size_t)plan.p("in_len"));
+		return;
+	}
 	gen_history(rng, plan, (size_t)plan.p("in_len"), false, false, false);
 }
 
